@@ -111,11 +111,13 @@ def split(
 
         if w:
             logs["dclab-split-warnings"] = common.assemble_warnings(w)
-        sample_name = ds.config["experiment"]["sample"]
+        # the sample name is optional metadata
+        sample_name = ds.config["experiment"].get("sample", "")
 
     # Add the logs and update sample name
     for ii, pt in enumerate(paths_temp):
-        meta = {"experiment": {"sample": f"{sample_name} {ii+1}/{num_files}"}}
+        meta = {"experiment": {
+            "sample": f"{sample_name} {ii+1}/{num_files}".strip()}}
         with RTDCWriter(pt, compression_kwargs=cmp_kw) as hw:
             for name in logs:
                 hw.store_log(name, logs[name])
